@@ -13,6 +13,7 @@ import DTML.Stats
 import DTML.TreeCodec
 import DTML.TreeState
 import DTML.Scan
+import DTML.Parse
 open Lean DTML
 
 namespace Driver
@@ -240,6 +241,76 @@ def opTokens (j : Json) : Except String Json := do
   return Json.mkObj [("toks", Json.arr (ps.map fun (l, t) => Json.arr #[jText l, jTok t]).toArray),
     ("tail", jText tl)]
 
+def jParams (p : Parse.Params) (skip : List String) : Json :=
+  Json.arr ((p.filter (fun kv => !(skip.contains kv.1))).map (fun (k, v) =>
+    Json.arr #[Json.str k, match v with
+      | .str s => jText s
+      | .dflt r => Json.mkObj [("dflt", Json.str r)]])).toArray
+
+def jTarget (t : Option Parse.NameOrExpr) : Array Json :=
+  match t with
+  | some t => #[jText t.name, Json.bool t.isExpr]
+  | none => #[Json.null, Json.bool false]
+
+/-- target of a continuation section's arguments (elif) -/
+def secTarget (args : List Char) : Array Json :=
+  match Parse.parseParams (Parse.tbl Gen.ifParams 2) args with
+  | .ok p => (match Parse.nameParam p true with
+      | .ok (t, _) => jTarget (some t)
+      | .error _ => jTarget none)
+  | .error _ => jTarget none
+
+partial def jNode : Parse.Node → Json
+  | .lit s => Json.arr #[Json.str "lit", jText s]
+  | .simple cmd b fmt =>
+    (match cmd with
+     | .var => Json.arr (#[Json.str "var"] ++ jTarget b.target ++ #[jParams b.params ["", "name", "expr"], jText fmt])
+     | .call => Json.arr (#[Json.str "call"] ++ jTarget b.target)
+     | .ret => Json.arr (#[Json.str "return"] ++ jTarget b.target)
+     | _ => Json.arr #[Json.str "?"])
+  | .block cmd b secs =>
+    let body (i : Nat) : Json := match secs[i]? with
+      | some s => Json.arr (s.body.map jNode).toArray
+      | none => Json.null
+    match cmd with
+    | .comment => Json.arr #[Json.str "comment"]
+    | .unless | .else_ => Json.arr (#[Json.str "unless"] ++ jTarget b.target ++ #[body 0])
+    | .if_ =>
+      let hasElse := secs.length > 1 && (secs.getLast?.map (·.tname)) == some "else"
+      let conds := if hasElse then secs.dropLast else secs
+      let cj := conds.zipIdx.map fun (s, i) =>
+        Json.arr ((if i = 0 then jTarget b.target else secTarget s.args) ++ #[Json.arr (s.body.map jNode).toArray])
+      Json.arr #[Json.str "if", Json.arr cj.toArray,
+        if hasElse then (match secs.getLast? with
+          | some s => Json.arr (s.body.map jNode).toArray
+          | none => Json.null) else Json.null]
+    | .in_ => Json.arr (#[Json.str "in"] ++ jTarget b.target ++ #[jParams b.params ["", "name", "expr"], body 0,
+        if secs.length > 1 then body 1 else Json.null])
+    | .with_ => Json.arr (#[Json.str "with"] ++ jTarget b.target ++ #[jParams b.params ["", "name", "expr"], body 0])
+    | .let_ => Json.arr #[Json.str "let", jParams b.params [], body 0]
+    | .raise_ => Json.arr (#[Json.str "raise"] ++ jTarget b.target ++ #[body 0])
+    | .try_ =>
+      Json.arr #[Json.str "try", Json.arr (secs.map fun s =>
+        Json.arr #[Json.str s.tname, jText (Scan.pyStrip s.args), Json.arr (s.body.map jNode).toArray]).toArray]
+    | .tree => Json.arr (#[Json.str "tree"] ++ jTarget b.target ++ #[jParams b.params ["", "name", "expr"], body 0])
+    | _ => Json.arr #[Json.str "?"]
+
+/-- op "compile": tokenise + build; the expressions to be compiled are listed -/
+def opCompile (j : Json) : Except String Json := do
+  let src ← getStr j "src"
+  let syn := parseSyntax (← getStr j "syntax")
+  let (ps, _) := Scan.tokens syn src.toList
+  match Parse.compile syn src.toList with
+  | .ok out =>
+    return Json.mkObj [("status", Json.str "ok"),
+      ("exprs", Json.arr (out.exprs.map fun e => Json.arr #[jText e.src, Json.bool e.shorthand]).toArray),
+      ("tree", Json.arr (out.nodes.map jNode).toArray)]
+  | .error le =>
+    let start := Parse.tokStart ps le.tok
+    let tag := (ps.getD le.tok ([], ⟨[], false, [], [], []⟩)).2.text
+    return Json.mkObj [("status", Json.str "error"), ("msg", Json.str le.err.msg), ("tok", Json.num le.tok),
+      ("tag", jText tag), ("line", Json.num (Parse.lineOf src.toList start))]
+
 def handle (j : Json) : Except String Json := do
   let op ← getStr j "op"
   match op with
@@ -254,6 +325,7 @@ def handle (j : Json) : Except String Json := do
   | "b64" => opB64 j
   | "tree" => opTree j
   | "tokens" => opTokens j
+  | "compile" => opCompile j
   | "ping" => return Json.str "pong"
   | _ => throw s!"unknown op {op}"
 
